@@ -95,11 +95,11 @@ func sumVec(res *{{.ElementName}}, a *{{.ElementName}}, n uint64)
 // It panics if the vectors don't have the same length.
 func (vector *Vector) InnerProduct(other Vector) (res {{.ElementName}}) {
 	n := uint64(len(*vector))
-	if n == 0 {
-		return
-	}
 	if n != uint64(len(other)) {
 		panic("vector.InnerProduct: vectors don't have the same length")
+	}
+	if n == 0 {
+		return
 	}
 	const maxN = (1 << 32) - 1
 	if !cpu.SupportAVX512 || n >= maxN {
@@ -425,11 +425,11 @@ func (vector *Vector) InnerProduct(other Vector) (res {{.ElementName}}) {
 	}
 
 	n := uint64(len(*vector))
-	if n == 0 {
-		return
-	}
 	if n != uint64(len(other)) {
 		panic("vector.InnerProduct: vectors don't have the same length")
+	}
+	if n == 0 {
+		return
 	}
 
 	const blockSize = 16
